@@ -272,3 +272,45 @@ def w2(facts, tier):
                 bad.append(f"variant {v} is written as {l} which the reader does not map to a variant")
         yield ob(["C01", "C02", "C13"], "W2", ty, "violation" if bad else "pass", where(wf),
                  f"{ty}: " + ("; ".join(bad[:4]) if bad else f"{len(wt)} tags map back to their variants"), tags=len(wt))
+
+
+# ---------------------------------------------------------------------------------------------
+# X: type-level facts that rustc itself enforces (the static counterpart of the compile_fail witnesses in /verif/witness)
+
+@rule("X1", ["C04"], floor=3, doc="the bulk-copy token cannot be forged from safe code: IsPacked::yes and Packed::repr_c_optimization_safe are "
+      "`unsafe fn`, and IsPacked's field is private")
+def x1(facts, tier):
+    for fid in ("savefile::IsPacked::yes", "savefile::Packed::repr_c_optimization_safe"):
+        f = facts.fns.get(fid)
+        ok = bool(f) and f.get("unsafe") is True
+        yield ob(["C04"], "X1", fid, "pass" if ok else "violation", where(f) if f else "",
+                 f"{fid} is an unsafe fn" if ok else f"{fid} is not (or no longer) an `unsafe fn`: safe code can claim a type is bulk-copyable")
+    a = facts.adts.get("savefile::IsPacked")
+    priv = bool(a) and all(not fl["pub"] for v in a["variants"] for fl in v["fields"])
+    yield ob(["C04"], "X1", "savefile::IsPacked.0", "pass" if priv else "violation", f"{a['file']}:{a['line']}" if a else "",
+             "IsPacked's field is private" if priv else "IsPacked can be constructed directly (public field or type missing)")
+
+
+@rule("X3", ["C11"], floor=1, doc="layout facts can only be injected into a schema through an unsafe constructor (Field::unsafe_new)")
+def x3(facts, tier):
+    f = facts.fns.get("savefile::Field::unsafe_new")
+    ok = bool(f) and f.get("unsafe") is True
+    a = facts.adts.get("savefile::Field")
+    off_priv = bool(a) and all(not fl["pub"] for v in a["variants"] for fl in v["fields"] if fl["name"] == "offset")
+    yield ob(["C11"], "X3", "savefile::Field::unsafe_new", "pass" if ok and off_priv else "violation", where(f) if f else "",
+             "Field::unsafe_new is unsafe and Field.offset is private" if ok and off_priv else
+             "a field offset can be set from safe code: layout_compatible can then be made to answer yes for a wrong layout")
+
+
+@rule("X2", ["C16"], floor=2, doc="AbiConnection<T> is Send/Sync only if the trait object T is")
+def x2(facts, tier):
+    for tr in ("core::marker::Send", "core::marker::Sync"):
+        hit = [im for im in facts.impls if im.get("trait") == tr and im["self_ty"].startswith("savefile_abi::AbiConnection<")]
+        if not hit:
+            yield ob(["C16"], "X2", tr, "pass", "", f"no explicit {tr} impl for AbiConnection (auto trait rules apply)", nontrivial=False)
+            continue
+        im = hit[0]
+        ok = any(w.replace(" ", "") == f"T:{tr}" for w in im["where"])
+        yield ob(["C16"], "X2", tr, "pass" if ok else "violation", f"{im['file']}:{im['line']}",
+                 f"unsafe impl {tr} for AbiConnection<T> requires T: {tr}" if ok else
+                 f"unsafe impl {tr} for AbiConnection<T> has no `T: {tr}` bound: a connection to a non-thread-safe implementation can cross threads")
